@@ -38,6 +38,7 @@ var variantFamilies = []variant{
 	{family: "mapswap", mapShape: 1},
 	{family: "mapomitkey", mapShape: 2},
 	{family: "mapomitval", mapShape: 3},
+	{family: "mapomitboth", mapShape: 5},
 	{family: "mapdup", mapShape: 4},
 	{family: "explicitzero", explicitZero: true},
 	{family: "unknown", unknown: true},
@@ -191,7 +192,17 @@ func (e *venc) message(m protoreflect.Message, depth int) []byte {
 					kb := e.one(kfd, kv, depth)
 					vb := e.one(vfd, vv, depth)
 					var p []byte
+					valZero := (vfd.Kind() != protoreflect.MessageKind && isZeroVal(vfd, vv)) || (vfd.Kind() == protoreflect.MessageKind && len(e.message(vv.Message(), depth+1)) == 0)
 					switch {
+					case shape == 5 && isZeroVal(kfd, kv) && valZero:
+						// zero key mapped to a zero value: a writer may omit both (zero-length entry)
+						e.applied++
+					case shape == 5 && isZeroVal(kfd, kv):
+						p = append(p, vb...)
+						e.applied++
+					case shape == 5 && valZero:
+						p = append(p, kb...)
+						e.applied++
 					case shape == 1:
 						p = append(append(p, vb...), kb...)
 						e.applied++
